@@ -149,6 +149,19 @@ func (g *gen) strct(depth int, path []string, underAlias bool, collect bool) ref
 
 func genLeaf(r *coqfmt.Rng, t reflect.Type) (reflect.Value, string) {
 	v := reflect.New(t).Elem()
+	if r.Chance(1, 3) {
+		// the Go zero value, explicitly supplied: false, 0, "", 0s (set, not unset)
+		switch t.Kind() {
+		case reflect.String:
+			return v, ""
+		case reflect.Bool:
+			return v, "false"
+		}
+		if t == reflect.TypeOf(time.Duration(0)) {
+			return v, "0s"
+		}
+		return v, "0"
+	}
 	switch t.Kind() {
 	case reflect.String:
 		s := []string{"abc", "x1", "hello", "v_2", "Zed"}[r.Intn(5)]
@@ -489,6 +502,12 @@ func run(raw json.RawMessage) driver.Result {
 			}
 		}
 	}
+	for _, sl := range slots {
+		if sl.val.IsZero() {
+			tags = append(tags, "zero-value-supplied")
+			break
+		}
+	}
 	tags = append(tags, "result-"+res.Class())
 	if len(both) > 0 {
 		tags = append(tags, "some-both")
@@ -569,7 +588,7 @@ func gen_(r *coqfmt.Rng, n int, tier string) []json.RawMessage {
 func main() {
 	driver.Main(driver.Engine{
 		Prop: "C14", CoqImport: "Dials.Check.C14Check", CoqRun: "run_cases",
-		Rule: "random config types (scalar leaves of 11 kinds incl. durations and named scalars, nested value/pointer structs to depth 3, embedded structs) with dialsalias tags (plus dialsenvalias / dialsflagalias / dialspflagalias on leaves, with and without a primary tag, dialsdesc) on random leaf and struct-typed fields at any depth; up to 3 aliased targets per type, ALL 4^k neither/primary/alias/both patterns; other leaves set independently with probability 1/3; each type through one of: env source (with and without prefix), std flag source, pflag source, JSON decoder wrapped with ez's alias/reformat/set-slice manglers; non-trivial: at least one target and a pattern other than all-neither; distinct = distinct (type state, source, pattern)",
+		Rule: "random config types (scalar leaves of 11 kinds incl. durations and named scalars, nested value/pointer structs to depth 3, embedded structs) with dialsalias tags; every supplied value is the Go zero value of its type (false, 0, \"\", 0s) with probability 1/3 (plus dialsenvalias / dialsflagalias / dialspflagalias on leaves, with and without a primary tag, dialsdesc) on random leaf and struct-typed fields at any depth; up to 3 aliased targets per type, ALL 4^k neither/primary/alias/both patterns; other leaves set independently with probability 1/3; each type through one of: env source (with and without prefix), std flag source, pflag source, JSON decoder wrapped with ez's alias/reformat/set-slice manglers; non-trivial: at least one target and a pattern other than all-neither; distinct = distinct (type state, source, pattern)",
 		Gen: gen_, Run: run,
 	})
 }
